@@ -28,6 +28,9 @@ CLASSES = ("IdealReservoir", "SinglePhaseReservoir")
 
 def rt_replay(w):
     import types
+    r0 = resv.int_grid_replay(w)
+    if r0.get("reproduced"):
+        return r0
     from ..rt import c17 as rt
     r_ = rt.run(types.SimpleNamespace(tier="quick", seed=0))
     if r_["violations"]:
@@ -92,6 +95,19 @@ def build(ctx):
     obs.append(Obligation("shift.recovery", "recovery_factor(): the quadrature increments are unchanged when all times are shifted (in-place recovery does not use the times at all)", shift_recovery, [resv.RF], "SMT", rt_replay))
 
     def constant():
+        v = constant1()
+        if v.status != be.PROVED:
+            return v
+        with resv.int_time():  # whole-day time stamps: the scalar setting must not be cast to the grid's integer type
+            v2 = constant1()
+        if v2.status != be.PROVED:
+            v2.detail = "[integer-typed time grid] " + v2.detail
+            if v2.witness is not None:
+                v2.witness["time_dtype"] = "int64"
+            return v2
+        return v
+
+    def constant1():
         A = resv.Step(ctx, "SinglePhaseReservoir", "array")
         B = resv.Step(ctx, "SinglePhaseReservoir", "none")
         sub = {}
